@@ -17,6 +17,7 @@ def resChar13 : RelRes → Char
   | .bool false => 'F'
   | .unevaluated => 'N'
   | .unmodelled => '?'
+  | .error => 'E'
 
 def relVector13 (q : ValQuirks) (env : Env Float) (a b : V Float) : String :=
   String.ofList <| [
@@ -28,9 +29,12 @@ def relVector13 (q : ValQuirks) (env : Env Float) (a b : V Float) : String :=
 def quirksOf13 (qs : List String) : ValQuirks :=
   { numEqAsymmetric := qs.contains "numEqAsymmetric"
     convCmpOneWay := qs.contains "convCmpOneWay"
+    strEqSameQuotesRaw := qs.contains "strEqSameQuotesRaw"
+    cmpOldUnitRules := qs.contains "cmpOldUnitRules"
     mapEqOrdered := qs.contains "mapEqOrdered"
     mapEqOneSided := qs.contains "mapEqOneSided"
-    argListNeverEqual := qs.contains "argListNeverEqual" }
+    argListNeverEqual := qs.contains "argListNeverEqual"
+    ordCalcFlag := qs.contains "ordCalcFlag" }
 
 def listItems : V Float → Option (List (V Float))
   | .list xs _ _ => some xs
@@ -79,7 +83,7 @@ def allSome {α} : List (Option α) → Option (List α)
 def handleC13 (quirks : List String) (op : String) (args : List String) : String :=
   let q := quirksOf13 quirks
   match op, args with
-  | "veq", ta :: tb :: conv :: _ | "seq", ta :: tb :: conv :: _ =>
+  | "veq", ta :: tb :: conv :: _ | "seq", ta :: tb :: conv :: _ | "seqin", ta :: tb :: conv :: _ =>
     match parseTerm fOfBits13 ta, parseTerm fOfBits13 tb with
     | some a, some b =>
       let env := parseEnv fOfBits13 conv
